@@ -190,8 +190,9 @@ impl Directive {
                         bail!("Too many arguments for {}", self);
                     }
                     if let Operand::E(expr) = &args[0] {
-                        if let Expr::Const(n) = expr {
-                            context.push_to_last((point, Item::ReserveData(*n)));
+                        // size is needed for layout, so it is computed from what is known here
+                        if let Ok(n) = expr.run(&context.common_context) {
+                            context.push_to_last((point, Item::ReserveData(n)));
                         }
                     }
                 } else {
